@@ -291,7 +291,7 @@ def _callname(name):
         return name
     import re as _re
     name = _re.sub(r"#.*$", "", name)
-    parts = [x for x in name.split("::") if x]
+    parts = [x for x in name.split("::") if x and not _re.match(r"^<[A-Za-z0-9_, ]+>$", x)]
     tail = parts[-1]
     if len(parts) >= 2:
         prev = parts[-2]
